@@ -56,6 +56,9 @@ func (l *legacyLayout) finish() {
 		Annotations   map[string]string `json:"annotations,omitempty"`
 	}
 	i := idx{SchemaVersion: 2, MediaType: mtIndex, Manifests: l.index}
+	if i.Manifests == nil {
+		i.Manifests = []mdesc{} // a valid layout: "manifests" is an array, also when it is empty
+	}
 	if l.converted {
 		i.Annotations = map[string]string{"org.olareg.referrer.convert": "true"}
 	}
